@@ -19,6 +19,8 @@ def run(run, model):
     run.do(rec.call_args, model)
     run.do(msg.args_listed, model, "C06.args-listed")
     run.do(msg.a_repr_rule, model, "C06.a-repr")
+    from . import fwd
+    run.do(fwd.forwarding, model, "C06.configured-repr", ("a_repr",))
     run.minimum("C06.optable", 27)
     run.minimum("C06.chain", 1)
     run.minimum("C06.node-value", 20)
